@@ -115,7 +115,7 @@ class C02(RecorderProp):
             'S3 cassettes; spy cassette log and serialized store compared before/after every play; non-trivial = a replay that '
             'answered at least one interception; distinct = distinct canonical case')
     OPTS = dict(ALL_OPTS, policies=True, same_script=0.25, play_ratio=0.65, runs=(2, 6), interrupts=True,
-                cassettes=['memory', 'memory', 'file', 's3'])
+                cassettes=['memory', 'memory', 'file', 's3'], foreign=True)
     N = {'quick': 2500, 'thorough': 30000}
 
     def generate(self, rng, tier):
